@@ -81,7 +81,7 @@ CLAIMED = {
         note="gnark-crypto's GLV scalar multiplication is modelled by its specification (double-and-add), compared differentially.",
         tech="Coq proof (ring/field identities on coordinate formulas) + differential correspondence", ref="DESIGN.md 6.8"),
     "C01": dict(
-        text="MAIN THEOREM (abstract field with partial inverse, abstract module, domain 2^k for every k): for every non-empty "
+        text="Transfer theorem: the prover/verifier run on coordinate-level group operations give the same transcripts, scalars and decisions as over any lawful group related to them by an operation-preserving, encoding- and Equal-respecting relation, so completeness holds for the run on representations (premise for Banderwagon: that relation exists). MAIN THEOREM (abstract field with partial inverse, abstract module, domain 2^k for every k): for every non-empty "
              "list of honest openings (any number, any repetition/spread of the z_i, any polynomials), every worker count and "
              "arrival order and every transcript state, CreateMultiProof succeeds and CheckMultiProof from the same state "
              "accepts with the same final transcript state (same next challenge). Built from: schedule-independent grouping, "
